@@ -22,6 +22,7 @@ P-boxes (section `PBoxes`; `Lemmas/Iso.lean` has the rule-level facts `iso_frech
 * `mul_iso_poi`               ★ perfect / opposite / independent, all signs (four-corner rule);
 * `mul_iso_f_pos`             Frechet product of non-negative operands;
 * `neg_iso`, `numRight_iso`, `numLeft_iso`, `unary_iso`, `env_iso`, `imp_iso`  ★;
+* `recip_iso`, `div_iso_poi`  reciprocal and division by a divisor of one sign (perfect / opposite / independent);
 * `ptree_iso_partial`         nested p-box expressions of any depth over those nodes.
 Each says: both runs return (the constructor accepts), both results are well formed, and they are nested.
 
@@ -32,8 +33,8 @@ Mixed propagation (section `Mixed`):
 * `slicing_iso`   ★ slicing with a fixed number of slices and the direct interval strategy.
 
 NOT proved (kept as `C12Statement`, checked by the correspondence and the oracle only): the Frechet
-product when an operand is negative or straddles zero (negation conjugation, naive ∩ Balch), division
-(`X.div` = product with the reciprocal), `c / X`.  Not modelled here: sin/cos/tanh/abs/powers (C05),
+product when an operand is negative or straddles zero (negation conjugation, naive ∩ Balch), division under
+Frechet, `c / X`.  Not modelled here: sin/cos/tanh/abs/powers (C05),
 vertex and subinterval propagation (C13; they are NOT isotone in general — see the known findings).
 -/
 set_option linter.unusedSimpArgs false
@@ -899,6 +900,100 @@ example : (PTree.bin .sub .p (.env (.var 0) (.var 1)) (.numR .mul (.var 1) (-2))
 
 end PBoxes
 
+section Recip
+open Pun List Pun.PBox
+
+/-! ### reciprocal and division (divisor of one sign) -/
+
+theorem LE.map_anti_on {f : Rat → Rat} (p : Rat → Prop) (hf : ∀ x y, p x → p y → x ≤ y → f y ≤ f x)
+    {l l' : List Rat} (h : LE l l') (hl : ∀ x ∈ l, p x) (hl' : ∀ x ∈ l', p x) : LE (l'.map f) (l.map f) := by
+  induction h with
+  | nil => exact List.Forall₂.nil
+  | @cons a b s t hab _ ih =>
+    exact List.Forall₂.cons (hf _ _ (hl a (by simp)) (hl' b (by simp)) hab)
+      (ih (fun x hx => hl x (by simp [hx])) (fun x hx => hl' x (by simp [hx])))
+
+theorem sorted_map_rev_anti {f : Rat → Rat} (p : Rat → Prop) (hf : ∀ x y, p x → p y → x ≤ y → f y ≤ f x)
+    (l : List Rat) (s : l.Pairwise (· ≤ ·)) (hl : ∀ x ∈ l, p x) : (l.reverse.map f).Pairwise (· ≤ ·) := by
+  rw [List.pairwise_map, List.pairwise_reverse]
+  exact (List.Pairwise.and_mem.mp s).imp (fun ⟨ha, hb, hab⟩ => hf _ _ (hl _ ha) (hl _ hb) hab)
+
+theorem hasZero_false_of {l : List Rat} (h : ∀ x ∈ l, x ≠ 0) : hasZero l = false := by
+  simp only [hasZero, List.any_eq_false, beq_iff_eq]
+  exact fun x hx => h x hx
+
+/-- a sign on which `1/x` is decreasing: all positive, or all negative -/
+structure SignP (p : Rat → Prop) : Prop where
+  anti : ∀ x y, p x → p y → x ≤ y → 1 / y ≤ 1 / x
+  ne0 : ∀ x, p x → x ≠ 0
+
+theorem signP_pos : SignP (fun x => 0 < x) :=
+  ⟨fun x y hx hy hxy => one_div_le_one_div_of_le hx hxy, fun x hx => ne_of_gt hx⟩
+
+theorem signP_neg : SignP (fun x => x < 0) :=
+  ⟨fun x y hx hy hxy => (one_div_le_one_div_of_neg hy hx).mpr hxy, fun x hx => ne_of_lt hx⟩
+
+theorem recip_ok (n : Nat) (p : Rat → Prop) (sp : SignP p) {X : PB} (wX : WF n X)
+    (hl : ∀ v ∈ X.left, p v) (hr : ∀ v ∈ X.right, p v) :
+    recip n X = .ok ⟨X.right.reverse.map (1 / ·), X.left.reverse.map (1 / ·)⟩ ∧
+    WF n ⟨X.right.reverse.map (1 / ·), X.left.reverse.map (1 / ·)⟩ := by
+  have l1 : (X.right.reverse.map (1 / ·)).length = n := by simp [wX.rlen]
+  have l2 : (X.left.reverse.map (1 / ·)).length = n := by simp [wX.llen]
+  have s1 := sorted_map_rev_anti p sp.anti X.right wX.rsorted hr
+  have s2 := sorted_map_rev_anti p sp.anti X.left wX.lsorted hl
+  have hle : LE (X.right.reverse.map (1 / ·)) (X.left.reverse.map (1 / ·)) :=
+    LE.map_anti_on p sp.anti wX.valid.reverse (fun x hx => hl x (List.mem_reverse.mp hx))
+      (fun x hx => hr x (List.mem_reverse.mp hx))
+  refine ⟨?_, ⟨l1, l2, s1, s2, hle⟩⟩
+  have z1 := hasZero_false_of (fun x hx => sp.ne0 x (hl x hx))
+  have z2 := hasZero_false_of (fun x hx => sp.ne0 x (hr x hx))
+  simp only [recip, z1, z2, Bool.or_self, Bool.false_eq_true, if_false]
+  exact mk_ok n false _ _ l1 l2 s1 s2 hle
+
+theorem mem_of_LE_left {l l' : List Rat} (h : LE l' l) (p : Rat → Prop) (hp : ∀ x y, p x → x ≤ y → p y)
+    (hl' : ∀ v ∈ l', p v) : ∀ v ∈ l, p v := by
+  induction h with
+  | nil => simp
+  | @cons a b s t hab _ ih =>
+    intro v hv
+    rcases List.mem_cons.mp hv with e | hv'
+    · subst e; exact hp a _ (hl' a (by simp)) hab
+    · exact ih (fun x hx => hl' x (by simp [hx])) v hv'
+
+/-- **the reciprocal is isotone** for operands of one sign -/
+theorem recip_iso (n : Nat) (p : Rat → Prop) (sp : SignP p) {X X' : PB} (wX : WF n X) (wX' : WF n X')
+    (hX : PSub X X') (hl : ∀ v ∈ X.left, p v) (hr : ∀ v ∈ X.right, p v) (hl' : ∀ v ∈ X'.left, p v)
+    (hr' : ∀ v ∈ X'.right, p v) : IsoRes n (recip n X) (recip n X') := by
+  obtain ⟨e, w⟩ := recip_ok n p sp wX hl hr
+  obtain ⟨e', w'⟩ := recip_ok n p sp wX' hl' hr'
+  refine ⟨_, _, e, e', ⟨?_, ?_⟩, w, w'⟩
+  · exact LE.map_anti_on p sp.anti hX.2.reverse (fun x hx => hr x (List.mem_reverse.mp hx))
+      (fun x hx => hr' x (List.mem_reverse.mp hx))
+  · exact LE.map_anti_on p sp.anti hX.1.reverse (fun x hx => hl' x (List.mem_reverse.mp hx))
+      (fun x hx => hl x (List.mem_reverse.mp hx))
+
+/-- **`X.div(Y, dependency)` is isotone under perfect, opposite and independent dependence** for a divisor of one
+sign: reciprocal, `1 * (1/Y)`, then the product under the swapped dependency -/
+theorem div_iso_poi (n : Nat) (d : Dep) (hd : d = .p ∨ d = .o ∨ d = .i) (p : Rat → Prop) (sp : SignP p)
+    {X X' Y Y' : PB} (wX : WF n X) (wX' : WF n X') (wY : WF n Y) (wY' : WF n Y') (hX : PSub X X') (hY : PSub Y Y')
+    (hl : ∀ v ∈ Y.left, p v) (hr : ∀ v ∈ Y.right, p v) (hl' : ∀ v ∈ Y'.left, p v) (hr' : ∀ v ∈ Y'.right, p v) :
+    IsoRes n (div n d X Y) (div n d X' Y') := by
+  obtain ⟨r, r', e, e', hr0, wr, wr'⟩ := recip_iso n p sp wY wY' hY hl hr hl' hr'
+  obtain ⟨q, q', f, f', hq, wq, wq'⟩ := numberOp_mul_iso n 1 wr wr' hr0
+  have hd' : swapPO d = .p ∨ swapPO d = .o ∨ swapPO d = .i := by
+    rcases hd with h | h | h <;> subst h <;> simp [swapPO]
+  have key := mul_iso_poi n (swapPO d) hd' wX wX' wq wq' hX hq
+  simp only [div, e, e', f, f', bind, Except.bind]
+  exact key
+
+example : IsoRes 2 (div 2 .p ⟨[1, 2], [2, 4]⟩ ⟨[1, 2], [3, 3]⟩) (div 2 .p ⟨[0, 2], [3, 5]⟩ ⟨[1/2, 2], [3, 4]⟩) :=
+  div_iso_poi 2 .p (Or.inl rfl) _ signP_pos ⟨rfl, rfl, by decide, by decide, by decide⟩
+    ⟨rfl, rfl, by decide, by decide, by decide⟩ ⟨rfl, rfl, by decide, by decide, by decide⟩
+    ⟨rfl, rfl, by decide +kernel, by decide, by decide +kernel⟩ (by constructor <;> decide) (by constructor <;> decide +kernel)
+    (by decide) (by decide) (by decide +kernel) (by decide)
+
+end Recip
+
 section Mixed
 open Pun Pun.PBox
 
@@ -1120,8 +1215,8 @@ def C12Statement : Prop :=
     (∀ P ∈ vars, WF n P) → (∀ P ∈ vars', WF n P) →
     ∀ R R', t.eval n vars = .ok R → t.eval n vars' = .ok R' → PSub R R'
 
-/-- **C12 for division** `X.div(Y, d)` with a divisor of one sign.  MISSING entirely (reciprocal, then the product
-under the swapped dependency); covered by the correspondence and the oracle. -/
+/-- **C12 for division** `X.div(Y, d)` with a divisor of one sign.  `div_iso_poi` proves it (with both runs defined)
+under perfect / opposite / independent dependence; MISSING: `d = f` (the Frechet product with the reciprocal). -/
 def C12DivStatement : Prop :=
   ∀ (n : Nat) (d : Dep), d ≠ .unknown → ∀ (X X' Y Y' : PB), WF n X → WF n X' → WF n Y → WF n Y' →
     ((∀ v ∈ Y'.left, 0 < v) ∨ (∀ v ∈ Y'.right, v < 0)) → PSub X X' → PSub Y Y' →
